@@ -30,7 +30,20 @@ EXPLANATION = (
     "subscripting, false-alarm direction for all 13 binary operators); R14.6 "
     "the public attribute surface of 16 builtin types in the stub equals "
     "CPython 3.12's; R14.7 an operator with no result and no error reports "
-    "unsupported-operands, otherwise the binder error. These decide the "
+    "unsupported-operands, otherwise the binder error; R14.8 the memo key of "
+    "Converter.constant_to_value (a cache from constant *values* to abstract "
+    "values) carries type(pyval) and, for every container kind the constant "
+    "dispatch converts element by element (tuple, frozenset: read from the "
+    "`pyval.__class__ is K` arms of _constant_to_value), an arm that derives "
+    "the key from the element types *recursively* (a self-calling helper); "
+    "Python equates 1 == 1.0 == True and (1, 2) == (1.0, 2.0), so a key "
+    "without these lets a later literal receive an earlier literal's abstract "
+    "value (history-dependent false alarms and missed errors); every other "
+    "`<cache>[key]` site in convert.py/output.py/abstract_utils.py whose key "
+    "holds an unannotated parameter raw must carry type(param) or be in the "
+    "triaged table.  R14.8 is a necessary condition (it does not prove the "
+    "key injective: e.g. a frozenset of element types that loses the "
+    "value/type pairing would pass).  These decide the "
     "property for ground builtin operands up to the fidelity of the admission "
     "model (calibrated against the real matcher at design time: 2542/2548 "
     "cases); user classes, method-call arguments and overload resolution in "
@@ -42,6 +55,10 @@ ASSUMPTIONS = [
     "| union; class-scoped TypeVars = unknown, not compared) mirrors the "
     "matcher for ground builtin operands",
     "types implemented by overlays (property, super, type) are excluded",
+    "R14.8: code-object constants nest (CPython folds ((1,), 2) and "
+    "{(1, 2)} into nested tuple / frozenset constants), so a one-level "
+    "element-type key is not enough; writers of Converter._convert_cache in "
+    "other modules (named_tuple.py) are not checked for key-shape agreement",
 ]
 
 VM = "pytype/vm.py"
@@ -552,7 +569,7 @@ def _converted_container_kinds(mod, fn, pname, seen=None):
   return kinds
 
 
-@rule("R14.8", "C14", floor=6)
+@rule("R14.8", "C14", floor=7)
 def r14_8(ctx):
   """A cache from constant *values* to abstract values keys on their types."""
   mod = get_module(ctx, CONVERT)
